@@ -76,14 +76,10 @@ let rec print (b : Buffer.t) (t : tree) : unit =
       Stdlib.List.iteri (fun i x -> if i > 0 then Buffer.add_char b ' '; print b x) ts;
       Buffer.add_char b ')'
 
-let judges : (string * (tree -> tree)) list = [
-  ("e2", judge_e2);
-]
-
 let () =
   let eng = Sys.argv.(1) in
   let judge =
-    try Stdlib.List.assoc eng judges
+    try Stdlib.List.assoc eng Judges.judges
     with Not_found -> (prerr_endline ("unknown engine " ^ eng); exit 2) in
   (try
      while true do
